@@ -14,6 +14,7 @@ Part R  RenderIterator(cache=c) vs RenderIterator(cache=False) over two identica
 Part I  ImageIterator(cached=c) vs ImageIterator(cached=False) on a 3-frame GIF for BlockImage / KittyImage
         / ITerm2Image: next, seek(p) (valid and invalid), image-size changes between a fixed size, another
         fixed size and a dynamic (FIT) size, terminal resizes (which change the dynamic size), close.
+        (quick: the one configuration with terminal resizes uses a 2-frame GIF, the others a fixed terminal.)
         Oracle: identical outcome, `loop_no`, image `tell()`; additionally every yielded frame equals
         `format()` of an independent twin image seeked to the frame the image reports.
 
